@@ -34,6 +34,31 @@ from harness import core
 # (failing closed on a tree it does not understand) show up as a broken tie of C04
 os.environ.setdefault("VERIF_EXTRACT_ONLY", "emit_shape")
 
+
+def _memoise_sysconfig():
+    """`logger.add()` builds an ExceptionFormatter whose constructor calls `sysconfig.get_paths()` (16 ms of pure,
+    argument-determined work in the standard library) – two thirds of the cost of a scenario.  Memoise it for this
+    process; nothing of loguru is touched."""
+    import functools
+    import sysconfig
+    if getattr(sysconfig.get_paths, "c04_memo", False):
+        return
+    orig = sysconfig.get_paths
+
+    @functools.lru_cache(maxsize=None)
+    def cached(scheme, expand):
+        return orig(scheme, None, expand)
+
+    def get_paths(scheme=None, vars=None, expand=True):
+        if vars is not None:
+            return orig(scheme if scheme is not None else sysconfig.get_default_scheme(), vars, expand)
+        return dict(cached(scheme if scheme is not None else sysconfig.get_default_scheme(), expand))
+    get_paths.c04_memo = True
+    sysconfig.get_paths = get_paths
+
+
+_memoise_sysconfig()
+
 PROP = "C04"
 LEAN_TARGETS = ["LoguruModel.Props.C04"]
 AUDIT_FILE = "LoguruModel/Audit/C04.lean"
@@ -158,6 +183,8 @@ def S(scn):
     t["strfails"] = set(scn["strfails"])
     t["levels"] = {int(k): v for k, v in scn["levels"].items()}
     t["handlers"] = {h["id"]: h for h in scn["handlers"]}
+    t["raw"] = set(scn.get("raw", []))          # messages logged with opt(raw=True)
+    t["colors"] = set(scn.get("colors", []))    # messages logged with opt(colors=True) and markup in the text
     return t
 
 
@@ -228,7 +255,8 @@ def line_of(scn):
                     E += "/%d:%s" % (op[2], m)
                 elif op[0] == "R":
                     E += "/%d:%s" % (op[1], m)
-    return "run H=%s F=%s A=%s R=%s X=%s S=%s N=%s L=%s E=%s D=3 O=%s" % (H, F, A, R, X, Sf, N, L, E, O)
+    W = lst([str(i) for i in scn.get("raw", [])])
+    return "run H=%s F=%s A=%s R=%s X=%s S=%s N=%s L=%s E=%s D=3 O=%s W=%s" % (H, F, A, R, X, Sf, N, L, E, O, W)
 
 
 def show_obs(results, events, reg, minlevel, sinks):
@@ -272,7 +300,7 @@ def spec_outcome(t, h, i, stopped):
         return ("failed", F[(i, h, "dynFormat")])
     if i in t["exc"] and (i, h, "excFormat") in F:
         return ("failed", F[(i, h, "excFormat")])
-    if (i, h, "formatMap") in F:
+    if i not in t["raw"] and (i, h, "formatMap") in F:      # a raw message is emitted as it is: nothing to format
         return ("failed", F[(i, h, "formatMap")])
     if c["serialize"] and (i, h, "serialize") in F:
         return ("failed", F[(i, h, "serialize")])
@@ -443,42 +471,76 @@ def report_phase(text):
 
 
 class Recorder:
-    """stand-in for sys.stderr; `retired` = it is no longer sys.stderr (any write to it is a stale write),
-    `closed` = like a closed file: writing raises ValueError"""
+    """stand-in for sys.stderr.  `sys.stderr` is only required to be an object with `write()`: the default flavour
+    offers nothing else (no `flush`, no `closed`, no `isatty` …) and keeps its own book-keeping under private
+    names, so that the code under test cannot lean on an attribute a real file happens to have.
+    `c04_retired` = it is no longer sys.stderr (any write to it is a stale write), `c04_closed` = like a closed
+    file: writing raises ValueError"""
 
     def __init__(self, mode):
-        self.mode = mode
-        self.chunks = []
-        self.retired = False
-        self.closed = False
-        self.stale = 0
+        self.c04_mode = mode
+        self.c04_chunks = []
+        self.c04_retired = False
+        self.c04_closed = False
+        self.c04_stale = 0
 
     def write(self, text):
-        if self.retired:
-            self.stale += 1
-        if self.closed:
+        if self.c04_retired:
+            self.c04_stale += 1
+        if self.c04_closed:
             raise ValueError("I/O operation on closed file.")
-        if self.mode == "ok":
-            self.chunks.append((threading.current_thread().name, text))
+        mode = self.c04_mode
+        if mode == "ok":
+            self.c04_chunks.append((threading.current_thread().name, text))
             return len(text)
-        if "@" in self.mode:
+        if "@" in mode:
             # a stream that breaks in the middle of a report: it refuses the chunk named in the mode
-            kind, at = self.mode.split("@")
+            kind, at = mode.split("@")
             if report_phase(text) != at:
-                self.chunks.append((threading.current_thread().name, text))
+                self.c04_chunks.append((threading.current_thread().name, text))
                 return len(text)
             raise ERR_CLS[kind]("stderr broke at chunk %s" % at)
-        raise ERR_CLS[self.mode]("stderr is broken")
+        raise ERR_CLS[mode]("stderr is broken")
+
+    def take(self):
+        per = {}
+        for name, text in self.c04_chunks:
+            per.setdefault(name, []).append(text)
+        self.c04_chunks = []
+        return {k: "".join(v) for k, v in per.items()}
+
+
+class FlushRecorder(Recorder):
+    """… with a `flush()`"""
 
     def flush(self):
         pass
 
-    def take(self):
-        per = {}
-        for name, text in self.chunks:
-            per.setdefault(name, []).append(text)
-        self.chunks = []
-        return {k: "".join(v) for k, v in per.items()}
+
+class FileLikeRecorder(FlushRecorder):
+    """… with the usual attributes of an open text file"""
+    encoding = "utf-8"
+    errors = "backslashreplace"
+
+    @property
+    def closed(self):
+        return self.c04_closed
+
+    def isatty(self):
+        return False
+
+    def writable(self):
+        return True
+
+    def fileno(self):
+        raise OSError("no file descriptor")
+
+
+STDERR_FLAVOURS = {"minimal": Recorder, "flush": FlushRecorder, "filelike": FileLikeRecorder}
+
+
+def mk_recorder(scn, mode):
+    return STDERR_FLAVOURS[(scn or {}).get("stderr_flavour", "minimal")](mode)
 
 
 BLOCK = re.compile(r"--- Logging error in Loguru Handler #(\d+) ---\nRecord was: (.*?)\n(.*?)--- End of logging error ---\n",
@@ -551,11 +613,14 @@ def parse_reports(per_thread):
     return events, junk
 
 
+ANSI = re.compile(r"\x1b\[[0-9;]*m")
+
+
 def idx_of_text(text, serialize):
     try:
         if serialize:
             text = json.loads(text)["text"]
-        first = text.split("\n")[0]
+        first = ANSI.sub("", text).split("\n")[0]
         if first.startswith("m") and first[1:].isdigit():
             return int(first[1:])
     except Exception:  # noqa
@@ -629,16 +694,37 @@ class Impl:
     def log(self, i):
         t = self.t
         lg = self.lg.bind(**self.extras(i))
+        opts = {}
         if i in t["exc"]:
             bad = any(st == "excFormat" and ii == i for (ii, h, st) in t["faults"])
             if bad:
-                lg = lg.opt(exception=(ValueError, ValueError("e%d" % i), object()))
+                opts["exception"] = (ValueError, ValueError("e%d" % i), object())
             else:
-                lg = lg.opt(exception=ValueError("e%d" % i))
-        lg.log(LEVEL_NAMES[level_of(t, i)], "m%d" % i)
+                opts["exception"] = ValueError("e%d" % i)
+        text = "m%d" % i
+        if i in t["colors"]:
+            opts["colors"] = True
+            text = "<red>m%d</red>" % i          # visible text "m<i>"; SGR codes on colorize=True handlers
+        if i in t["raw"]:
+            opts["raw"] = True
+            text += "\n"                          # a raw message brings its own line end
+        if opts:
+            lg = lg.opt(**opts)
+        lg.log(LEVEL_NAMES[level_of(t, i)], text)
 
     def on_filter(self, h, record):
-        pass
+        self.pre_stage(h, record, "filter")
+
+    def on_format(self, h, record):
+        self.pre_stage(h, record, "dynFormat")
+
+    def pre_stage(self, h, record, stage):
+        """oracle-only stream `pre-lock-reenter`: the filter / format function of one handler uses the logger (for outer
+        messages only).  These run BEFORE the handler lock is taken: not a re-entry, the inner call is a whole _log"""
+        pre = self.scn.get("pre")
+        i = record["extra"]["i"]
+        if pre and pre["stage"] == stage and h == pre["pos"] and i < 100:
+            self.log(100 + i)
 
     def on_write(self, h, message):
         """common body of every synchronous sink"""
@@ -728,13 +814,15 @@ class Impl:
             kw["filter"] = flt
         if c["dynamic"]:
             def fmt(record):
+                me.on_format(h, record)
                 me.fault(record["extra"]["i"], h, "dynFormat")
                 return "{message}{extra[f%d]}\n{exception}" % h
             kw["format"] = fmt
         else:
             kw["format"] = "{message}{extra[f%d]}" % h
         hid = self.lg.add(sink, level=c["level"], catch=bool(c["catch"]), enqueue=bool(c["enqueue"]),
-                          serialize=ser, colorize=False, backtrace=False, diagnose=False, **kw)
+                          serialize=ser, colorize=bool(c.get("colorize", 0)), backtrace=bool(c.get("backtrace", 0)),
+                          diagnose=False, **kw)
         if hid != h:
             raise RuntimeError("handler ids are not consecutive: %r != %r" % (hid, h))
 
@@ -748,6 +836,7 @@ class Impl:
                         lines = f.read().split("\n")
                 except OSError:
                     lines = []
+                lines = [ANSI.sub("", l) if not c["serialize"] else l for l in lines]
                 lines = [l for l in lines if l and (l.startswith("m") or l.startswith("{"))]
                 out[h] = [idx_of_text(l, bool(c["serialize"])) for l in lines]
             else:
@@ -804,11 +893,11 @@ class Impl:
             self.loop_errors = []
             if junk:
                 events.append("JUNK:" + repr(junk[0][:80]))
-            stale = sum(r.stale for r in self.old_recs)
+            stale = sum(r.c04_stale for r in self.old_recs)
             if stale:
                 events.append("STALE-STDERR-WRITES:%d" % stale)     # a stream that is no longer sys.stderr was written
                 for r in self.old_recs:
-                    r.stale = 0
+                    r.c04_stale = 0
             ml = self.min_level()
             obs.append(show_obs(results, events, self.registry(), ml, self.sinks()))
         return obs
@@ -816,12 +905,12 @@ class Impl:
     def switch_stderr(self, e):
         """what a program does between two logging calls: redirect_stderr / per-call capture / re-opened streams"""
         if e.get("fresh") or (self.rec is None) != (e["mode"] == "absent") or \
-                (self.rec is not None and self.rec.mode != e["mode"]):
+                (self.rec is not None and self.rec.c04_mode != e["mode"]):
             if self.rec is not None:
-                self.rec.retired = True
-                self.rec.closed = bool(e.get("close_prev"))
+                self.rec.c04_retired = True
+                self.rec.c04_closed = bool(e.get("close_prev"))
                 self.old_recs.append(self.rec)
-            self.rec = None if e["mode"] == "absent" else Recorder(e["mode"])
+            self.rec = None if e["mode"] == "absent" else mk_recorder(self.scn, e["mode"])
             sys.stderr = self.rec
 
     def cleanup(self):
@@ -835,7 +924,7 @@ class Impl:
 def _runner(scn, box):
     tmp = tempfile.mkdtemp(prefix="c04_")
     mode = scn["stderr"]
-    rec = None if mode == "absent" else Recorder(mode)
+    rec = None if mode == "absent" else mk_recorder(scn, mode)
     old = sys.stderr
     impl = None
     try:
@@ -1169,6 +1258,203 @@ def judge_closed_loop(ctx, params):
     return False
 
 
+# ----------------------------------------------------------------------------- logger used before the lock
+def pre_cases():
+    out = []
+    for stage in ("filter", "dynFormat"):
+        for pos in (0, 1, 2):
+            for catch in (1, 0):
+                for victim in (None, 0, 1, 2):
+                    if victim == pos:
+                        continue
+                    for kind in ("callable", "streamFlush", "file", "standard"):
+                        out.append({"stage": stage, "pos": pos, "catch": catch, "victim": victim, "kind": kind})
+    return out
+
+
+def pre_scn(p):
+    hs = [base_handler(h) for h in range(3)]
+    hs[p["pos"]].update(kind=p["kind"], catch=p["catch"], filter=int(p["stage"] == "filter"),
+                        dynamic=int(p["stage"] == "dynFormat"))
+    scn = empty_scn(hs, [[["l", 0], ["c"]], [["l", 1], ["c"]], [["l", 2], ["c"]]])
+    scn["pre"] = {"pos": p["pos"], "stage": p["stage"]}
+    if p["victim"] is not None:
+        hs[p["victim"]]["catch"] = 0
+        scn["faults"] = [[101, p["victim"], "write", "KeyError"]]     # fails on the second inner message only
+    return scn
+
+
+def pre_expected(p):
+    """the property: filter and format function run before the handler's lock is taken, so a logging call made there
+    is an ordinary call – every handler (this one included) processes the inner message; an exception that escapes
+    from it (a catch=False handler failing on the inner message) is a failure of THIS handler's filter / format
+    stage: reported or raised as its `catch` says; nobody is blocked, the next message is unaffected"""
+    sinks = {0: [], 1: [], 2: []}
+    obs = []
+
+    def log(i, events):
+        for h in range(3):
+            if h == p["pos"] and i < 100:
+                err = log(100 + i, events)
+                if err is not None:
+                    if p["catch"]:
+                        events.append(ev_report(h, i, err, False, "m"))
+                        continue
+                    return err
+            if h == p["victim"] and i == 101:
+                return "KeyError"
+            sinks[h].append(i)
+        return None
+    for i in range(3):
+        events = []
+        err = log(i, events)
+        obs.append(show_obs(["ok" if err is None else err, "ok"], events, [0, 1, 2], 0, sinks))
+    return obs
+
+
+def judge_pre(ctx, p):
+    scn = pre_scn(p)
+    status, obs = run_impl(scn)
+    exp = pre_expected(p)
+    ctx.case(("pre-lock-reenter", json.dumps(p, sort_keys=True)), nontrivial=True)
+    ctx.stat("logger_used_in_filter_or_format_function")
+    if status == "hang" or obs != exp:
+        d = next((k for k in range(len(exp)) if k >= len(obs) or obs[k] != exp[k]), 0)
+        ctx.violation("the %s of handler %d uses the logger (%r): group %d: property demands %r, implementation did %r"
+                      % ("filter" if p["stage"] == "filter" else "format function", p["pos"], p, d, exp[d],
+                         obs[d] if d < len(obs) else status),
+                      {"oracle_only": "pre-lock-reenter", "params": p, "scenario": scn, "expected": exp,
+                       "observed": obs, "status": status})
+        return True
+    return False
+
+
+# ----------------------------------------------------------------------------- ErrorInterceptor.print, call by call
+class PrintStream:
+    """a stderr that refuses one chunk of a report; `truthy=False`: an object that is there but falsy.  Nothing but
+    `write()` (and `__bool__`) is offered in the minimal flavour"""
+
+    def __init__(self, fail, truthy=True):
+        self.c04_fail, self.c04_truthy, self.c04_writes = fail, truthy, []
+
+    def __bool__(self):
+        return self.c04_truthy
+
+    def write(self, text):
+        ph = report_phase(text)
+        if self.c04_fail is not None and ph == self.c04_fail[0]:
+            raise ERR_CLS[self.c04_fail[1]]("stderr broke at chunk %s" % ph)
+        self.c04_writes.append((ph, text))
+        return len(text)
+
+
+class PrintStreamFile(PrintStream):
+    closed = False
+    encoding = "utf-8"
+
+    def flush(self):
+        pass
+
+    def isatty(self):
+        return False
+
+
+def print_cases():
+    out = []
+    fails = [None] + [(c, k) for c in CHUNKS for k in ERR_NAMES]
+    for present in ("ok", "none", "falsy"):
+        for fail in fails:
+            for rec in ("dict", "unprintable", "none"):
+                for explicit in (0, 1):
+                    for flavour in ("minimal", "filelike"):
+                        out.append({"present": present, "fail": list(fail) if fail else None, "record": rec,
+                                    "explicit": explicit, "flavour": flavour})
+    return out
+
+
+def run_print_case(p):
+    """one real call of ErrorInterceptor.print -> '<chunks>:<placeholder>:<escaping error>' (+ what was wrong with
+    the text of a chunk, if anything)"""
+    from loguru._error_interceptor import ErrorInterceptor
+    fail = tuple(p["fail"]) if p["fail"] else None
+    cls = PrintStreamFile if p.get("flavour") == "filelike" else PrintStream
+    stream = None if p["present"] == "none" else cls(fail, truthy=p["present"] == "ok")
+    record = None if p["record"] == "none" else {"extra": {"i": 1}, "message": "m1"}
+    if p["record"] == "unprintable":
+        record["extra"]["bad"] = BadRepr()
+    ei = ErrorInterceptor(True, 7)
+    old = sys.stderr
+    sys.stderr = stream
+    try:
+        try:
+            if p["explicit"]:
+                ei.print(record, exception=KeyError("k"))
+            else:
+                try:
+                    raise KeyError("k")
+                except KeyError:
+                    ei.print(record)
+            esc = "-"
+        except Exception as e:  # noqa
+            esc = kind_of(e)
+    finally:
+        sys.stderr = old
+    writes = stream.c04_writes if stream is not None else []
+    chunks, notes, ph = "", [], 0
+    for phase, text in writes:
+        if not chunks.endswith(phase):
+            chunks += phase
+        if phase == "h" and "#7 " not in text:
+            notes.append("header without the handler id: %r" % text)
+        if phase == "r":
+            ph = int("Unprintable record" in text)
+            if not ph and p["record"] != "none" and "'i': 1" not in text:
+                notes.append("record line without the record: %r" % text[:80])
+            if p["record"] == "none" and text != "Record was: None\n":
+                notes.append("record line for a failing get(): %r" % text[:80])
+    if "t" in chunks and not any("KeyError" in t for ph_, t in writes if ph_ == "t"):
+        notes.append("traceback without the exception")
+    return "%s:%d:%s" % (chunks or "-", ph, esc), notes
+
+
+def print_expected(p):
+    """the property, for a stderr that works / is not there / breaks with OSError: nothing is propagated, the report
+    carries handler id and record as far as stderr accepted it; None = outside the property (other error kinds)"""
+    if p["present"] != "ok":
+        return "-:0:-"
+    full = CHUNKS if p["fail"] is None else CHUNKS[:CHUNKS.index(p["fail"][0])]
+    if p["fail"] is not None and p["fail"][1] != "OSError":
+        return None
+    return "%s:%d:-" % (full or "-", int(p["record"] == "unprintable" and "r" in full))
+
+
+def print_line(p):
+    return "print P=%d F=%s S=%d" % (int(p["present"] == "ok"), "-" if not p["fail"] else "%s:%s" % tuple(p["fail"]),
+                                     int(p["record"] == "unprintable"))
+
+
+def judge_print(ctx, p, model):
+    obs, notes = run_print_case(p)
+    exp = print_expected(p)
+    ctx.case(("print", json.dumps(p, sort_keys=True)), nontrivial=p["fail"] is not None or p["record"] != "dict")
+    ctx.stat("print_call")
+    bad = False
+    if exp is not None and (obs != exp or notes):
+        ctx.violation("ErrorInterceptor.print %r: property demands %r, implementation did %r %s"
+                      % (p, exp, obs, "; ".join(notes)),
+                      {"oracle_only": "print", "params": p, "expected": exp, "observed": obs, "notes": notes})
+        bad = True
+    if model is not None and obs != model:
+        ctx.broke("correspondence Print.printP", "case=%r impl=%r model=%r" % (p, obs, model))
+        if not bad:
+            ctx.violation("ErrorInterceptor.print %r: Lean model Print.printP Gen.printProgram (characterised by "
+                          "print_writes_longest_accepted_prefix) says %r, implementation did %r" % (p, model, obs),
+                          {"oracle_only": "print", "params": p, "expected": model, "observed": obs, "notes": notes},
+                          kind="correspondence")
+        bad = True
+    return bad
+
+
 # ----------------------------------------------------------------------------- generators
 def base_handler(hid, **kw):
     h = {"id": hid, "level": 0, "catch": 1, "enqueue": 0, "kind": "callable", "filter": 0, "dynamic": 0,
@@ -1252,6 +1538,14 @@ def scn_of_point(pt, rng):
             else:
                 scn["faults"].append([i, pos, stage, kind_err])
     groups.append([["l", n], ["c"]])       # one more good message: everybody must be usable
+    scn["stderr_flavour"] = rng.choice(["minimal", "minimal", "flush", "filelike"])
+    if rng.chance(20):
+        c["colorize"] = 1
+    for i in range(n + 1):
+        if rng.chance(10):
+            scn.setdefault("raw", []).append(i)
+        if rng.chance(10):
+            scn.setdefault("colors", []).append(i)
     if bin(w).count("1") >= 2 and rng.chance(60):
         scn["stderr_seq"] = gen_stderr_seq(rng, len(groups), "ok")
     elif w and rng.chance(20):
@@ -1285,11 +1579,13 @@ def random_scn(rng):
         hs.append(base_handler(hid, level=rng.choice([0, 0, 0, 10, 20, 30]), catch=int(rng.chance(65)), enqueue=enq,
                                kind=kind, filter=int(rng.chance(40)), dynamic=int(rng.chance(30)),
                                serialize=int(rng.chance(25)),
-                               stoppable=int(not (kind in ("stream", "streamFlush") and rng.chance(30)))))
+                               stoppable=int(not (kind in ("stream", "streamFlush") and rng.chance(30))),
+                               colorize=int(rng.chance(25)), backtrace=int(rng.chance(20))))
     nm = rng.range(1, 4)
     groups = [[["l", i], ["c"]] for i in range(nm)]
     scn = empty_scn(hs, groups)
     scn["stderr"] = stderr
+    scn["stderr_flavour"] = rng.choice(["minimal", "minimal", "flush", "filelike"])
     scn["noloop"] = int(rng.chance(6)) if not any(c["enqueue"] and c["kind"] == "coroutine" for c in hs) else 0
     for i in range(nm):
         if rng.chance(25):
@@ -1301,6 +1597,10 @@ def random_scn(rng):
                     scn["faults"].append([i, c["id"], "excFormat", "AttributeError"])
         if rng.chance(10):
             scn["strfails"].append(i)
+        if rng.chance(14):
+            scn.setdefault("raw", []).append(i)          # opt(raw=True): the handler's format is not applied
+        if rng.chance(14):
+            scn.setdefault("colors", []).append(i)       # opt(colors=True) with markup in the message
         shared = {}
         for c in hs:
             if c["filter"] and rng.chance(15):
@@ -1392,6 +1692,17 @@ def random_scn(rng):
                                                           or any(r[1] == c["id"] for r in scn["reenter"]))):
                     # the table may name sinks whose stop() runs no user code: nothing can fail there
                     scn["faults"].append([k, c["id"], "stop", rng.choice(ERR_NAMES)])
+    # a removal right after a logging call, with no complete() in between: stop() must drain what is still in the
+    # handler's queue (sentinel, join) before the sink is stopped, and cancels the coroutine tasks not yet awaited
+    k = 1
+    while k < len(groups):
+        g, prev = groups[k], groups[k - 1]
+        if len(g) == 1 and g[0][0] in ("r", "R") and len(prev) == 2 and prev[0][0] == "l" and prev[1] == ["c"] \
+                and rng.chance(40):
+            groups[k - 1] = [prev[0], g[0], ["c"]]
+            del groups[k]
+            continue
+        k += 1
     if tame and rng.chance(30):
         scn["stderr_seq"] = gen_stderr_seq(rng, len(groups), scn["stderr"])
     return scn
@@ -1509,6 +1820,25 @@ CORPUS = [
                 [10, 4, "stop", "OSError"]],
      "rejects": [], "reenter": [], "exc": [], "strfails": [], "levels": {}, "noloop": 0, "stderr": "ok",
      "groups": [[["l", 0], ["c"]], [["R", 9]], [["l", 1], ["c"]], [["R", 10]], [["l", 2], ["c"]], [["R", 11]]]},
+    # raw and coloured messages through plain / colourising / dynamic-format / serialising handlers: a raw message is
+    # not formatted, so its format_map fault is inert (message 1) while the same fault fails message 0 and 2
+    {"handlers": [base_handler(0, colorize=1), base_handler(1, dynamic=1, kind="streamFlush", catch=0),
+                  base_handler(2, serialize=1, kind="file", colorize=1), base_handler(3, kind="standard", enqueue=1)],
+     "faults": [[0, 0, "formatMap", "KeyError"], [1, 0, "formatMap", "KeyError"], [1, 1, "formatMap", "ValueError"],
+                [2, 1, "formatMap", "ValueError"], [3, 2, "formatMap", "Other"]],
+     "rejects": [], "reenter": [], "exc": [3], "strfails": [], "levels": {"2": 30}, "noloop": 0, "stderr": "ok",
+     "raw": [1, 3], "colors": [0, 1, 2],
+     "groups": [[["l", 0], ["c"]], [["l", 1], ["c"]], [["l", 2], ["c"]], [["l", 3], ["c"]]]},
+    # removal with messages still pending (no complete() in between): the coroutine sink's scheduled task is cancelled
+    # (message 0 never reaches it, no report), the enqueue handler's queue is drained before its sink is stopped –
+    # including the message whose write fails (reported by the worker) –, the enqueue coroutine sink schedules and
+    # then cancels; the last remove() takes the rest
+    {"handlers": [base_handler(0, kind="coroutine"), base_handler(1, enqueue=1, kind="stream"),
+                  base_handler(2, enqueue=1, kind="coroutine"), base_handler(3), base_handler(4, enqueue=1, kind="file")],
+     "faults": [[0, 0, "coroBody", "ValueError"], [1, 1, "write", "KeyError"], [7, 1, "stop", "OSError"]],
+     "rejects": [], "reenter": [], "exc": [], "strfails": [], "levels": {}, "noloop": 0, "stderr": "ok",
+     "groups": [[["l", 0], ["r", 0, 5], ["c"]], [["l", 1], ["r", 1, 7], ["c"]], [["l", 2], ["r", 2, 8], ["c"]],
+                [["l", 3], ["R", 9], ["c"]], [["l", 4], ["c"]]]},
     # DESIGN "Outside": stderr failing with ValueError reaches the caller even with catch=True (model only)
     {"handlers": [base_handler(0), base_handler(1)], "faults": [[0, 0, "write", "KeyError"]], "rejects": [],
      "reenter": [], "exc": [], "strfails": [], "levels": {}, "noloop": 0, "stderr": "ValueError",
@@ -1560,10 +1890,17 @@ def run(ctx):
         crng = rng.fork("oracle-only")
         cc = conc_cases()
         cl = closed_loop_cases()
+        pl = pre_cases()
         if ctx.quick:
             crng.shuffle(cc)
             crng.shuffle(cl)
-            cc, cl = cc[:10], cl[:14]
+            crng.shuffle(pl)
+            cc, cl, pl = cc[:10], cl[:14], pl[:24]
+        nbad = 0
+        for params in pl:
+            nbad += judge_pre(ctx, params)
+            if nbad >= 2:
+                break
         nbad = 0
         for params in cl:
             nbad += judge_closed_loop(ctx, params)
@@ -1612,15 +1949,26 @@ def run(ctx):
         scns.append(("random[%d]" % k, random_scn(rrng)))
 
     lines = [line_of(s) for _, s in scns]
+    pcases = print_cases()
     t0 = time.time()
     try:
-        model = drv.run(lines)
-        ctx.note("model driver: %d scenarios in %.1fs" % (len(lines), time.time() - t0))
+        model = drv.run(lines + [print_line(p) for p in pcases])
+        ctx.note("model driver: %d scenarios + %d print calls in %.1fs" % (len(lines), len(pcases), time.time() - t0))
     except core.DriverError as e:
         # the model no longer builds (a shape the extractor does not recognise): broken tie; the direct
         # oracle below still looks for a failing input
         ctx.broke("driver:C04 (model does not build against the extracted shape)", str(e))
-        model = [None] * len(lines)
+        model = [None] * (len(lines) + len(pcases))
+    # ErrorInterceptor.print call by call: every stderr condition x every chunk x every error kind x record shapes
+    # (exhaustive in both tiers: 1188 calls)
+    nbad = 0
+    for p, mo in zip(pcases, model[len(lines):]):
+        if mo == "bad-op":
+            raise RuntimeError("driver rejected print line: " + print_line(p))
+        nbad += judge_print(ctx, p, mo)
+        if nbad >= 3:
+            break
+    model = model[:len(lines)]
     hangs = 0
     for (origin, scn), mo in zip(scns, model):
         if mo == "bad-op":
@@ -1651,6 +1999,8 @@ def run(ctx):
             ctx.stat("with_remove")
         if any(op[0] == "R" for g in scn["groups"] for op in g):
             ctx.stat("with_remove_all")
+        if any(len(g) == 3 and g[1][0] in ("r", "R") for g in scn["groups"]):
+            ctx.stat("remove_with_messages_pending")
         if any("@" in m for m in [scn["stderr"]] + [e["mode"] for e in scn.get("stderr_seq") or []]):
             ctx.stat("stderr_breaks_mid_report")
         if any(not h.get("stoppable", 1) for h in scn["handlers"]):
@@ -1690,6 +2040,33 @@ def replay(ctx, rep):
             print("  -", b.get("name") if isinstance(b, dict) else b)
         return 1
     r = rep["replay"]
+    if r.get("oracle_only") == "print":
+        obs, notes = run_print_case(r["params"])
+        exp = print_expected(r["params"])
+        try:
+            model = core.Driver(DRIVER).run([print_line(r["params"])])[0]
+        except Exception as e:  # noqa
+            model = None
+        print("case:          ", r["params"])
+        print("implementation:", obs, notes)
+        print("property:      ", exp)
+        print("model:         ", model)
+        bad = (exp is not None and (obs != exp or bool(notes))) or \
+            (rep.get("kind") == "correspondence" and model is not None and obs != model)
+        print("REPRODUCED" if bad else "not reproduced")
+        return 1 if bad else 0
+    if r.get("oracle_only") == "pre-lock-reenter":
+        status, obs = run_impl(pre_scn(r["params"]))
+        exp = pre_expected(r["params"])
+        print("case:          ", r["params"])
+        print("implementation:", status, obs)
+        print("property:      ", exp)
+        bad = status == "hang" or obs != exp
+        print("REPRODUCED" if bad else "not reproduced")
+        sys.stdout.flush()
+        if status == "hang":
+            os._exit(1)
+        return 1 if bad else 0
     if r.get("oracle_only") in ("concurrent-reentry", "closed-loop"):
         warnings.filterwarnings("ignore", message="coroutine .* was never awaited")
         conc = r["oracle_only"] == "concurrent-reentry"
